@@ -273,7 +273,7 @@ Print Assumptions C16_commit_other_columns_keeps.
 Definition C16h_rows : list (bytes * list mutation) :=
   map (fun n => ([N.of_nat n], [SetCell [102%N] [113%N] 1000 [1%N]])) (seq 0 150).
 Definition C16h_s0 : server :=
-  fst (run [] [mkCall (BCreateTable [112%N] [116%N] [([102%N], Some (GMaxAge 0 0))]) 0 [];
+  fst (run [] [mkCall (BCreateTable [112; 114; 111; 106; 101; 99; 116; 115; 47; 112; 47; 105; 110; 115; 116; 97; 110; 99; 101; 115; 47; 105]%N [116%N] [([102%N], Some (GMaxAge 0 0))]) 0 [];
                mkCall (BMutateRows gc_tbl C16h_rows) 0 []]).
 Definition C16h_w : call := mkCall (BMutateRow gc_tbl [120%N] [SetCell [102%N] [113%N] 9000 [7%N]]) 0 [].
 Definition C16h_st0 : cstate := init_cstate C16h_s0 [[mkCall (BRunGC gc_tbl) 5000 []]; [C16h_w]].
